@@ -12,7 +12,8 @@ RULE = ("texts are assembled from pieces (words, keyword, numbers, quoted string
         "(line, column) of every piece itself; each text is given as str, as list of lines and as a lazy iterable of lines during whose "
         "consumption the same parser parses another text, to four "
         "tokenizer configurations (comments skipped / comments as grammar tokens / blanks as grammar "
-        "tokens / no span matcher) and parsed with a statement grammar that has nullable nodes before "
+        "tokens / no span matcher / only ' ' is space, so a trailing TAB is an unmatched character) and parsed (both smart_factorization values) with a statement grammar that has common-prefix "
+        "groups (left-factorized productions with an empty remainder, also with an empty prefix) and nullable nodes before "
         "';', before ')' , at line ends and at the end of the text. Observed: the complete token stream "
         "of the parser's tokenizer and every node of the raw tree. Non-trivial = text of >=2 lines "
         "with a multi-line span token or an empty node whose following token is on a later line; "
@@ -41,20 +42,29 @@ TECHNIQUE = "runtime monitoring: position-tracking text generator as reference m
 
 TOK = r"""(?P<SPACE>\s+)|(?P<COMMENT_EOL>//.*)|(?P<COMMENT_ML>/\*)|(?P<WORD>[a-z_]+)|(?P<NUM>[0-9]+)
           |(?P<SEMI>;)|(?P<STRING>"[^"]*")|(?P<LP>\()|(?P<RP>\))"""
+TOK_NARROW = r"""(?P<SPACE>[ ]+)|(?P<COMMENT_EOL>//.*)|(?P<COMMENT_ML>/\*)|(?P<WORD>[a-z_]+)|(?P<NUM>[0-9]+)
+          |(?P<SEMI>;)|(?P<STRING>"[^"]*")|(?P<LP>\()|(?P<RP>\))"""
 TOK_NOSPAN = r"""(?P<SPACE>\s+)|(?P<COMMENT_EOL>//.*)|(?P<WORD>[a-z_]+)|(?P<NUM>[0-9]+)
           |(?P<SEMI>;)|(?P<STRING>"[^"]*")|(?P<LP>\()|(?P<RP>\))"""
 SPAN = {'COMMENT_ML': r"(?P<END_COMMENT>(\*[^/]|[^*])*)\*/"}
 SYN = {'COMMENT_EOL': 'COMMENT', 'COMMENT_ML': 'COMMENT', 'SEMI': ';', 'LP': '(', 'RP': ')'}
 SYN_NOSPAN = {'COMMENT_EOL': 'COMMENT', 'SEMI': ';', 'LP': '(', 'RP': ')'}
-KEYW = {('WORD', 'if'): 'IF'}
+KEYW = {('WORD', 'if'): 'IF', ('WORD', 'do'): 'DO'}
 
 STMT_PRODS = {
     'E': [('STMTS',)],
     'STMTS': [('STMT', 'STMTS'), ()],
     'STMT': [('WORD', 'OPTNUM', ';'), ('IF', 'OPTW', 'OPTNUM', ';'), ('NUM', 'OPTW', ';'),
-             ('STRING', ';'), ('(', 'STMTS', ')')],
+             ('STRING', ';'), ('(', 'STMTS', ')'), ('DO', 'DECL', ';')],
     'OPTNUM': [('NUM',), ()],
     'OPTW': [('WORD',), ()],
+    # groups of alternatives with a common prefix (left-factorized by the parser), one alternative
+    # of each group being the bare prefix; the prefix of the third group can be empty
+    # (longer alternative first: when the smart undo leaves a group un-factorized the parser tries
+    # the alternatives in this order and can only fall back inside the still open node)
+    'DECL': [('WORD', 'WORD', 'NUM'), ('WORD', 'WORD'), ('NUM', 'WORD'), ('NUM',),
+             ('OPTP', 'STRING'), ('OPTP',)],
+    'OPTP': [('(', ')'), ()],
 }
 
 
@@ -62,7 +72,7 @@ def item_prods(extra):
     return {
         'E': [('ITEMS',)],
         'ITEMS': [('ITEM', 'ITEMS'), ()],
-        'ITEM': [(t,) for t in ['WORD', 'IF', 'NUM', ';', 'STRING', '(', ')'] + extra],
+        'ITEM': [(t,) for t in ['WORD', 'IF', 'DO', 'NUM', ';', 'STRING', '(', ')'] + extra],
     }
 
 
@@ -75,17 +85,19 @@ CONFIGS = [
          prods=item_prods(['SPACE']), stmt=False, kept={'SPACE'}),
     dict(name="no-span-matcher", tok=TOK_NOSPAN, span=None, syn=SYN_NOSPAN, skip=None, prods=STMT_PRODS,
          stmt=True, kept=set()),
+    dict(name="only-blanks-are-space", tok=TOK_NARROW, span=SPAN, syn=SYN, skip=None, prods=STMT_PRODS,
+         stmt=True, kept=set(), narrow=True),
 ]
 _PARSERS = {}
 
 
-def get_parser(cfg_id):
-    if cfg_id not in _PARSERS:
+def get_parser(cfg_id, smart=True):
+    if (cfg_id, smart) not in _PARSERS:
         c = CONFIGS[cfg_id]
-        _PARSERS[cfg_id] = llparser.LLParser(
+        _PARSERS[cfg_id, smart] = llparser.LLParser(
             c["tok"], productions={k: list(v) for k, v in c["prods"].items()}, synonyms=c["syn"],
-            span_matchers=c["span"], keywords=KEYW, skip_tokens=c["skip"])
-    return _PARSERS[cfg_id]
+            span_matchers=c["span"], keywords=KEYW, skip_tokens=c["skip"], smart_factorization=smart)
+    return _PARSERS[cfg_id, smart]
 
 
 # ---------------------------------------------------------------- text generation
@@ -100,7 +112,17 @@ EOL_BODIES = ["", " c", " x /* y", " é中;"]
 def gen_stmt(rng, depth=0):
     """list of token pieces [(name, lexeme)] of one statement"""
     r = rng.random()
-    if r < 0.3:
+    if r < 0.18:
+        out = [("DO", "do")]
+        out.extend(rng.choice([
+            [("WORD", rng.choice(WORDS)), ("WORD", rng.choice(WORDS))],
+            [("WORD", rng.choice(WORDS)), ("WORD", rng.choice(WORDS)), ("NUM", rng.choice(NUMS))],
+            [("NUM", rng.choice(NUMS))],
+            [("NUM", rng.choice(NUMS)), ("WORD", rng.choice(WORDS))],
+            [], [("(", "("), (")", ")")], [("STRING", rng.choice(STRS))],
+            [("(", "("), (")", ")"), ("STRING", rng.choice(STRS))],
+        ]))
+    elif r < 0.3:
         out = [("WORD", rng.choice(WORDS))]
         if rng.random() < 0.5:
             out.append(("NUM", rng.choice(NUMS)))
@@ -133,11 +155,11 @@ def gen_pieces(rng, cfg):
         for _ in range(rng.randint(0, 5)):
             toks.extend(gen_stmt(rng))
     else:
-        names = ['WORD', 'IF', 'NUM', ';', 'STRING', '(', ')']
+        names = ['WORD', 'IF', 'DO', 'NUM', ';', 'STRING', '(', ')']
         toks = []
         for _ in range(rng.randint(0, 10)):
             n = rng.choice(names)
-            lex = {'WORD': rng.choice(WORDS), 'IF': 'if', 'NUM': rng.choice(NUMS), ';': ';',
+            lex = {'WORD': rng.choice(WORDS), 'IF': 'if', 'DO': 'do', 'NUM': rng.choice(NUMS), ';': ';',
                    'STRING': rng.choice(STRS), '(': '(', ')': ')'}[n]
             toks.append((n, lex))
     pieces = []
@@ -164,10 +186,19 @@ def gen_pieces(rng, cfg):
             out.append(("blank", "SPACE", " ") if rng.random() < 0.7 else ("nl", None, "\n"))
         return out
 
+    if cfg.get("narrow"):
+        # in this configuration only ' ' is skipped: blank pieces use nothing else
+        def filler(must_separate, _orig=filler):  # noqa: F811
+            out = []
+            for kind, name, txt in _orig(must_separate):
+                if kind == "blank":
+                    txt = " " * max(1, len(txt))
+                out.append((kind, name, txt))
+            return out
     pieces.extend(filler(False))
     prev = None
     for name, lex in toks:
-        need_sep = prev is not None and (prev[0] in ("WORD", "IF", "NUM") and name in ("WORD", "IF", "NUM"))
+        need_sep = prev is not None and (prev[0] in ("WORD", "IF", "DO", "NUM") and name in ("WORD", "IF", "DO", "NUM"))
         if prev is not None:
             pieces.extend(filler(need_sep))
         pieces.append(("tok", name, lex))
@@ -220,7 +251,7 @@ def slice_text(text, start, end):
 # ---------------------------------------------------------------- judging
 def judge(ctx, cfg_id, pieces, form, case):
     cfg = CONFIGS[cfg_id]
-    parser = get_parser(cfg_id)
+    parser = get_parser(cfg_id, case.get("smart", True))
     text, stream = layout(pieces, "lines" if form == "lazy" else form)
     src = text if form == "str" else text.split("\n")
     if form == "lazy":
@@ -243,6 +274,8 @@ def judge(ctx, cfg_id, pieces, form, case):
     skip = parser.skip_tokens
     ctx.evaluated()
     bad = [s for s in stream if s[0] == "<bad>"]
+    if bad and form == "str" and any(p[0] == "bad" and p[1] == "ws" for p in pieces):
+        return   # a str text is right-stripped line by line: trailing whitespace never reaches the tokenizer
     if bad:
         try:
             parser.parse(make_src(), do_cleanup=False)
@@ -253,6 +286,9 @@ def judge(ctx, cfg_id, pieces, form, case):
                               {"reported": err.src_pos.coords, "bad_char_at": bad[0][1]}, case)
         except llparser.ParsingError:
             ctx.violation("unmatched-character-not-reported", {"bad_char_at": bad[0][1]}, case)
+        except Exception as err:
+            ctx.violation("unmatched-character-raises-other-exception",
+                          {"type": type(err).__name__, "msg": str(err)[:100], "bad_char_at": bad[0][1]}, case)
         else:
             ctx.violation("unmatched-character-not-reported", {"bad_char_at": bad[0][1]}, case)
         return
@@ -363,9 +399,9 @@ def judge(ctx, cfg_id, pieces, form, case):
         ctx.nontrivial(sig_of([cfg_id, text, form]))
 
 
-def run_case(ctx, cfg_id, pieces):
+def run_case(ctx, cfg_id, pieces, smart=True):
     for form in ("str", "lines", "lazy"):
-        case = {"cfg": cfg_id, "pieces": [list(p) for p in pieces], "form": form}
+        case = {"cfg": cfg_id, "pieces": [list(p) for p in pieces], "form": form, "smart": smart}
         judge(ctx, cfg_id, pieces, form, case)
 
 
@@ -377,10 +413,19 @@ def run_shard(ctx):
         if i % 6 == 5:
             # a character no pattern matches, as a piece of its own
             pos = rng.randint(0, len(pieces)) if rng.random() < 0.7 else 0
+            if CONFIGS[cfg_id].get("narrow") and rng.random() < 0.6:
+                # a whitespace character that is not a token here, as the last character of a line
+                ends = [k for k, p in enumerate(pieces) if p[0] == "nl"] + [len(pieces)]
+                pos = rng.choice(ends)
+                while pos > 0 and pieces[pos - 1][2].startswith("//"):
+                    pos -= 1
+                pieces.insert(pos, ("bad", "ws", rng.choice(["\t", "\x0c", "\t\t"])))
+                run_case(ctx, cfg_id, pieces, smart=True)
+                continue
             while pos > 0 and pieces[pos - 1][2].startswith("//"):
                 pos -= 1  # anything behind '//' belongs to the comment
             pieces.insert(pos, ("bad", None, rng.choice(["@", "$", "%", "/ ", "}", "\ufeff", "\x00", "\ufeff"])))
-        run_case(ctx, cfg_id, pieces)
+        run_case(ctx, cfg_id, pieces, smart=rng.random() < 0.5)
         if i in (0, 1, 7):
             text, stream = layout(pieces, "str")
             ctx.sample({"config": CONFIGS[cfg_id]["name"], "text": text,
